@@ -26,7 +26,14 @@ judged apart: the statement of C12 speaks of atoms, bonds and interactions.  The
 switches - LogExtra, CitShared, LogPurge - are probed on the real classes at start-up), TLC marks every transition on which a
 named clause of the DEMANDED bookkeeping fails (`obs`), the replay confirms the marked transitions on the real objects, and
 any other difference in a bookkeeping field is counted as `differs:<field>`.  None of this is ever a VIOLATION; the counts are
-in the evidence (`bookkeeping`)."""
+in the evidence (`bookkeeping`).  Two consequences of bookkeeping ARE followed into the statement: a highest-key cache that
+differs from the model is carried on (replay: the successors of that state are replayed from that very object; judge: a
+wrong cache is not taken over), so that a stale cache shows as the KeyError / overwritten atom of the next merge.
+
+Workers record AND judge their own share of histories and return summaries (counts, rejected prefixes, hashes); the parent
+never holds the events.  A recorded world that cannot be represented for TLC (a number among the names of a block, a name
+among the numbers of a molecule: only a broken implementation gets there) is rejected by the recorder's representation check.
+`C12_PHASES=mc,sim,random,real` (any subset) restricts a run to some phases: a debugging aid for mutation testing."""
 import collections
 import copy
 import hashlib
@@ -1122,8 +1129,8 @@ RANDOM_NEED = {'AddNode', 'AddNodesFrom', 'SetResid', 'RemoveNode', 'RemoveNodes
 
 
 def random_jobs(tier, seed, book):
-    ntr = 320 if tier == 'quick' else 8000
-    nworkers = tlc.NCPU if tier == 'quick' else 5 * tlc.NCPU
+    ntr = 280 if tier == 'quick' else 8000
+    nworkers = 10 if tier == 'quick' else 5 * tlc.NCPU          # a JVM start per worker: fewer, larger batches in the quick tier
     per = ntr // nworkers
     return [('random', per, 40, seed * 104729 + i, book) for i in range(nworkers)], '%d random histories x 40 calls' % (per * nworkers)
 
@@ -1139,7 +1146,8 @@ def run(tier, seed, ev, vd):
     ev.assumptions = [
         'TLC evaluates the specification correctly',
         'not generated: a molecule merged into itself; receivers whose keys mix numbers and other values; an EMPTY Block as '
-        'the receiver of a merge; operands with different force field / nrexcl only as the documented ValueError',
+        'the receiver of a merge; operands with different force field / nrexcl only as the documented ValueError; '
+        'remove_interaction is always given a tuple (given a list it never finds the interaction: atoms are compared with ==)',
         'a receiver whose keys are not numbers makes merge_molecule raise TypeError with nothing touched: modelled as that '
         'refusal (the statement asks for fresh keys, which "highest key + 1" cannot give there; no atom is lost)',
         '"last atom" of the receiver is the atom with the highest key (what merge_molecule documents), also when it was not '
